@@ -30,7 +30,9 @@ HostileKinds == {"hostile0", "hostile2", "hostileBigBlob", "hostileBigManifest",
 Oversized    == {"hostileBigManifest", "hostileBigLegacy"}        \* manifests beyond the cap, in the image-manifest and in the legacy form
 (* "noSubjectLayerIsArtifact": a signature-typed manifest WITHOUT subject whose layer is the artifact's own descriptor (it
    refers to the artifact, but not as its subject) *)
-ForeignKinds == {"foreignType", "legacyForeign", "subjDigest", "subjSize", "subjMT", "noSubject", "noSubjectLayerIsArtifact"}
+(* "bigIndexMember": an image index BEYOND the manifest cap that lists the artifact among its members - a predecessor of the
+   artifact in the store, but not a referrer of it, let alone a signature: the caps are about signature manifests *)
+ForeignKinds == {"foreignType", "legacyForeign", "subjDigest", "subjSize", "subjMT", "noSubject", "noSubjectLayerIsArtifact", "bigIndexMember"}
 Kinds        == SigKinds \cup HostileKinds \cup ForeignKinds \cup GoneKinds \cup LostKinds
 
 (* a signature-typed referrer of exactly s is listed for s; nothing else ever is *)
